@@ -1,0 +1,27 @@
+//go:build verif
+
+package shimagent
+
+import (
+	"bytes"
+	"io"
+
+	"golang.org/x/crypto/ssh"
+)
+
+// VerifNewFromConn builds a ShimAgent over an already established connection to
+// the underlying agent. It is New without the dial, and exists only for the
+// simulation harness (build tag "verif").
+func VerifNewFromConn(conn io.ReadWriteCloser, opt Option) (ShimAgent, error) {
+	ag, err := newShimAgent(conn, opt.NoUpstream)
+	if err != nil {
+		return nil, err
+	}
+	if opt.PubKeyComp == nil {
+		opt.PubKeyComp = func(x, y ssh.PublicKey) bool {
+			return bytes.Equal(x.Marshal(), y.Marshal())
+		}
+	}
+	ag.pubKeyComp = opt.PubKeyComp
+	return ag, nil
+}
